@@ -58,8 +58,14 @@ func checkBudget(r *Run, prog *Program, a *Anchors, pfx string) {
 		if isFieldOf(fa, grammarPath, "parser", "Stats") && fa.Kind == "write" {
 			statsPtrWrites++
 			r.Check(pfx+".counter-census", fa.Fn.Name()+":parser.Stats", prog.pos(fa.Instr.Pos()), fa.Fn == newParser, "parser.Stats (which holds the step counter) is replaced outside newParser")
+			// every parse starts counting at zero: the record is a fresh allocation of newParser
+			root, _ := rootOf(fa.Val)
+			al, isAlloc := root.(*ssa.Alloc)
+			fresh := isAlloc && al.Parent() == newParser
+			r.Check(pfx+".counter-census", fa.Fn.Name()+":parser.Stats:fresh", prog.pos(fa.Instr.Pos()), fresh, "the record holding the step counter is not a fresh allocation of newParser ("+describeRoot(prog, fa.Val)+"): a parse could start with a count left over from an earlier one")
 		}
 	}
+	r.Check(pfx+".counter-census", "parser.Stats:writers", prog.pos(newParser.Pos()), statsPtrWrites == 1, fmt.Sprintf("%d writers of parser.Stats (expected one, in newParser)", statsPtrWrites))
 	// the counting function: parseExpr itself, or a helper parseExpr calls first thing
 	counter := parseExpr
 	if len(cntWrites) == 1 && cntWrites[0].Fn != parseExpr {
